@@ -299,6 +299,12 @@ def pool_execute(steps):
     return out
 
 
+def _history_job(job):
+    role, script, how = job
+    log, census, growth, alive, err = run_history(role, script, how)
+    return to_events(log), census, growth, alive, err
+
+
 def to_events(log):
     out = []
     for e in log:
@@ -332,10 +338,11 @@ def run(chk):
         for desc, rl, script, how in list(hist):
             if rl == role and 'two keep-alive' in desc:
                 break
-    for desc, role, script, how in hist:
-        log, census, growth, alive, err = run_history(role, script, how)
+    from harness.common import pmap
+    outcomes = pmap(_history_job, [(role, script, how) for _d, role, script, how in hist], chunksize=4)
+    for (desc, role, script, how), (log, census, growth, alive, err) in zip(hist, outcomes):
         cid = len(cases) + 1
-        cases.append({'id': cid, 'ev': to_events(log), 'census': census, 'growth': growth})
+        cases.append({'id': cid, 'ev': log, 'census': census, 'growth': growth})
         descs[cid] = {'history': desc, 'role': role, 'loop_alive': alive, 'loop_error': err}
     # ---- the upstream connection pool (not anchored in a listed property; part of "what is opened is closed") -------------------
     r = tlc.run('Pool', 'Pool.cfg', workers=8, timeout=300)
